@@ -1320,8 +1320,10 @@ class TLSConnection(TLSRecordLayer):
         sr_kex = serverHello.getExtension(ExtensionType.key_share)
         sr_psk = serverHello.getExtension(ExtensionType.pre_shared_key)
         if not sr_kex and not sr_psk:
-            raise TLSIllegalParameterException("Server did not select PSK nor "
-                                               "an (EC)DH group")
+            for result in self._sendError(
+                    AlertDescription.illegal_parameter,
+                    "Server did not select PSK nor an (EC)DH group"):
+                yield result
         if sr_kex:
             sr_kex = sr_kex.server_share
             self.ecdhCurve = sr_kex.group
@@ -1329,8 +1331,10 @@ class TLSConnection(TLSRecordLayer):
             cl_kex = next((i for i in cl_key_share_ex.client_shares
                            if i.group == sr_kex.group), None)
             if cl_kex is None:
-                raise TLSIllegalParameterException("Server selected not "
-                                                   "advertised group.")
+                for result in self._sendError(
+                        AlertDescription.illegal_parameter,
+                        "Server selected not advertised group."):
+                    yield result
             kex = self._getKEX(sr_kex.group, self.version)
             shared_sec = kex.calc_shared_key(cl_kex.private,
                                              sr_kex.key_exchange)
@@ -1527,8 +1531,11 @@ class TLSConnection(TLSRecordLayer):
                         cert_entry,
                         clientHello,
                         certificate_verify):
-                    raise TLSDecryptionFailed("server Delegated Credential " \
-                                              "verification failed.")
+                    for result in self._sendError(
+                            AlertDescription.illegal_parameter,
+                            "server Delegated Credential verification "
+                            "failed."):
+                        yield result
                 delegated_credential = cert_ext.delegated_credential
                 publicKey = delegated_credential.cred.pub_key
                 signature_scheme = delegated_credential.cred.dc_cert_verify_algorithm
@@ -1564,9 +1571,11 @@ class TLSConnection(TLSRecordLayer):
                 matching_hash = curve_name_to_hash_name(
                     publicKey.curve_name)
                 if hash_name != matching_hash:
-                    raise TLSIllegalParameterException(
-                        "server selected signature method invalid for the "\
-                        "certificate it presented (curve mismatch)")
+                    for result in self._sendError(
+                            AlertDescription.illegal_parameter,
+                            "server selected signature method invalid for "
+                            "the certificate it presented (curve mismatch)"):
+                        yield result
 
                 salt_len = None
                 method = publicKey.verify
@@ -1588,9 +1597,11 @@ class TLSConnection(TLSRecordLayer):
                           pad_type,
                           hash_name,
                           salt_len):
-                raise TLSDecryptionFailed("server Certificate Verify "
-                                          "signature "
-                                          "verification failed")
+                for result in self._sendError(
+                        AlertDescription.decrypt_error,
+                        "server Certificate Verify signature verification "
+                        "failed"):
+                    yield result
 
         transcript_hash = self._handshake_hash.digest(prfName)
 
@@ -1612,7 +1623,10 @@ class TLSConnection(TLSRecordLayer):
         verify_data = secureHMAC(finished_key, transcript_hash, prfName)
 
         if finished.verify_data != verify_data:
-            raise TLSDecryptionFailed("Finished value is not valid")
+            for result in self._sendError(
+                    AlertDescription.decrypt_error,
+                    "Finished value is not valid"):
+                yield result
 
         # now send client set of messages
         self._changeWriteState()
